@@ -213,7 +213,15 @@ func c19RandCase(r *rand.Rand) c19Case {
 				// deadline restarts with zero, i.e. the request times out at this very message
 				ext = 0
 			}
-			cs.Msgs = append(cs.Msgs, c19Msg{At: at, Kind: "pre-timeout", Payload: fmt.Sprintf(`timeout:"%d"`, ext), ExtMS: ext})
+			// a pre-response is a list of key:"value" pairs: the timeout key counts wherever it stands
+			payload := fmt.Sprintf(`timeout:"%d"`, ext)
+			switch r.Intn(5) {
+			case 0:
+				payload = `progress:"10" ` + payload
+			case 1:
+				payload = payload + ` note:"still working"`
+			}
+			cs.Msgs = append(cs.Msgs, c19Msg{At: at, Kind: "pre-timeout", Payload: payload, ExtMS: ext})
 		case 3:
 			cs.Msgs = append(cs.Msgs, c19Msg{At: at, Kind: "pre-junk", Payload: []string{`foo:"bar"`, `timeout:"abc"`, `timeout`, `Timeout:"100"`, `x`}[r.Intn(5)]})
 		default:
